@@ -1,6 +1,7 @@
 import Driver.Common
 import Oidc.Model.World
 import Oidc.Model.Verify
+import Oidc.Model.Codec
 import Oidc.Current
 /-!
 Driver for the family `handler`: browsers × instances.  Each request line is one `World.serveJar` step on the model's own
@@ -16,8 +17,13 @@ open Lean Driver Oidc Oidc.Session Oidc.Handler Oidc.World Oidc.Strings
 
 namespace Driver.Handler
 
-def L (s : String) : Str := s.toList
-def S (s : Str) : String := String.ofList s
+/-- Go strings are byte strings: the model's `Str` holds the UTF-8 bytes (as characters 0–255), so lengths are byte lengths -/
+def L (s : String) : Str := s.toUTF8.toList.map (fun b => Char.ofNat b.toNat)
+def S (s : Str) : String :=
+  let ba : ByteArray := ⟨(s.map (fun c => UInt8.ofNat c.toNat)).toArray⟩
+  match String.fromUTF8? ba with
+  | some str => str
+  | none => String.ofList s
 
 structure TokDesc where
   id : String
@@ -92,6 +98,9 @@ structure DState where
   insts : List (Nat × Verify.V)
   i : Nat
   step : Nat
+  cur : Option View := none       -- session family: the SessionData of the current request
+  now : Int := 0
+  secure : Bool := false
 
 def emptyJar : Jar := fun _ => none
 
@@ -132,6 +141,37 @@ def showTok (toks : List TokDesc) (t : Str) : String :=
   if t.isEmpty then "" else match findTok toks t with | some d => d.id | none => "?"
 
 def fuel : Nat := 300
+
+/-! ### C18: byte length of every Set-Cookie line from the model's own payloads (Oidc.Codec length arithmetic) -/
+def byteLen8 (x : Nat) : Nat := if x < 256 then 1 else 1 + byteLen8 (x / 256)
+def gobIntLen (v : Int) : Nat :=
+  let u : Nat := if v ≥ 0 then (2 * v).toNat else (2 * (-v) - 1).toNat
+  if u < 128 then 1 else 1 + byteLen8 u
+def valGob : Val → Nat
+  | .s v => Codec.ifaceStr v.length
+  | .b _ => Codec.ifaceBool
+  | .i v => Codec.ifaceInt (gobIntLen v)
+def payloadGob (p : Payload) : Nat :=
+  Codec.gobMap p.length ((p.map (fun kv => Codec.ifaceStr kv.1.length + valGob kv.2)).foldl (· + ·) 0)
+def lenFacts (secure : Bool) (now : Int) : Codec.LenFacts :=
+  { encrypted := Current.cookiesEncrypted, secure := secure, tsDigits := (toString now).length }
+def nameStr : Session.Name → String
+  | .main => Current.mainCookieName
+  | .whole .access => Current.accessCookieName
+  | .whole .refresh => Current.refreshCookieName
+  | .chunk .access i => s!"{Current.accessCookieName}_{i}"
+  | .chunk .refresh i => s!"{Current.refreshCookieName}_{i}"
+def shortStr : Session.Name → String
+  | .main => "m" | .whole .access => "a" | .whole .refresh => "r"
+  | .chunk .access i => s!"a{i}" | .chunk .refresh i => s!"r{i}"
+/-- lines written by one `Save` of view `v`: main, access, refresh, then every chunk -/
+def linesOf (secure : Bool) (now : Int) (v : View) : List (String × Nat) :=
+  let f := lenFacts secure now
+  let one (n : Session.Name) (p : Payload) : String × Nat := (shortStr n, Codec.lineLen f (nameStr n).length (payloadGob p))
+  [one .main v.main, one (.whole .access) (v.whole .access), one (.whole .refresh) (v.whole .refresh)] ++
+  ((v.chunks .access).zipIdx.map (fun (p, i) => one (.chunk .access i) p)) ++
+  ((v.chunks .refresh).zipIdx.map (fun (p, i) => one (.chunk .refresh i) p))
+
 
 def viewJson (st : DState) (e : Env) (j : Jar) : Json :=
   let v := getSession st.cfg.maxAge j e.now fuel
@@ -214,6 +254,46 @@ def runLine (st : DState) (j : Json) : DState × Option Json :=
         | "from" => (jarOf st (jN j "b")) nm
         | _ => none
       (setJar st st.b (fun n => if n = nm then val else cur n), none)
+  | "snew" =>
+    ({ st with cfg := { st.cfg with maxAge := Current.maxAgeSec, maxSz := Current.maxSz }, jars := [], b := 0, snaps := #[], toks := [], cur := none,
+               secure := jB j "secure" }, none)
+  | "sreq" =>
+    let now := jI j "now"
+    ({ st with cur := some (getSession st.cfg.maxAge (jarOf st st.b) now fuel), now := now }, none)
+  | "sset" =>
+    match st.cur with
+    | none => (st, none)
+    | some v =>
+      let cw := compressWith st.toks
+      let val := L (jS j "val")
+      let v' : View := match jS j "field" with
+        | "access" => setToken cw st.cfg.maxSz v .access val
+        | "refresh" => setToken cw st.cfg.maxSz v .refresh val
+        | "auth" => setAuthenticated v st.now (jB j "bool")
+        | "email" => setEmail v val
+        | "csrf" => setCSRF v val
+        | "nonce" => setNonce v val
+        | "ver" => setVerifier v val
+        | "inc" => setIncoming v val
+        | _ => v
+      ({ st with cur := some v' }, none)
+  | "ssave" | "sclear" =>
+    match st.cur with
+    | none => (st, none)
+    | some v0 =>
+      let v := if jS j "op" == "sclear" then clearView v0 else v0
+      let jar' := ofTab (toTab 300 (saveApply v))
+      let e : Env := { now := st.now, tok := tokInfo st.toks, verifyTok := fun _ => false, exchange := fun _ _ _ => .failed, refresh := fun _ => .error false,
+                       rnd := fun _ => [], s256 := id, exec := fun _ _ => none, compress := compressWith st.toks, decompress := decompressS }
+      -- earlier saves of the same response are superseded: the browser keeps the last line per name and the stale chunks are deleted
+      let st1 := setJar { st with cur := some v } st.b jar'
+      let lines := Json.mkObj ((linesOf st.secure st.now v).map (fun (n, l) => (n, Json.num l)))
+      (st1, some (Json.mkObj [("lines", lines), ("jar", viewJson st e jar')]))
+  | "sview" =>   -- reading the current jar (after tampering) without saving
+    let now := jI j "now"
+    let e : Env := { now := now, tok := tokInfo st.toks, verifyTok := fun _ => false, exchange := fun _ _ _ => .failed, refresh := fun _ => .error false,
+                     rnd := fun _ => [], s256 := id, exec := fun _ _ => none, compress := compressWith st.toks, decompress := decompressS }
+    (st, some (Json.mkObj [("jar", viewJson st e (jarOf st st.b))]))
   | "req" =>
     let n := st.step
     let now := jI j "now"
